@@ -526,6 +526,27 @@ def run_deepchain(ctx):
     r.sample({'deep_chains': 'Cn = C(n-1)+An for 60 / 250 rows; Cn = ROUND(IF(AND(..),SUM(C(n-1),An)-Bn,C(n-1)),2) for 40 / 120 rows'})
 
 
+def run_bigarea(ctx):
+    """slices whose precedents are reached through areas of a thousand cells and more (a data sheet summed, looked up and counted from a
+    summary sheet): every cell of such an area belongs to the slice like the cells of a small one"""
+    r, rng = ctx.r, ctx.rng
+    for rep in range(1 if ctx.tier == 'quick' else 5):
+        rows, cols = rng.choice([(50, 20), (200, 5), (1001, 1), (34, 30)])
+        data = {}
+        for i in range(1, rows + 1):
+            for j in range(1, cols + 1):
+                data[wbspec.a1(i, j)] = i * 100 + j if (i + j) % 11 else float(i) + 0.5
+        last = wbspec.a1(rows, cols)
+        lastcol = wbspec.a1(rows, 1)
+        calc = {'A1': f'=SUM(Data!A1:{last})', 'A2': f"=COUNT('Data'!A1:{last})+MAX(Data!A1:{last})", 'A3': f'=VLOOKUP({rows * 100 + 1},Data!A1:{last},{cols},FALSE)',
+                'A4': f'=SUM(Data!A:A)' if cols == 1 or rows >= 200 else f'=SUM(Data!A1:{lastcol})+INDEX(Data!A1:{last},{rows},{cols})', 'A5': '=A1+A3',
+                'A6': f'=SUMIF(Data!A1:{lastcol},">{rows * 50}")', 'B1': f'=MIN(Data!B2:{last})' if cols > 1 else f'=MIN(Data!A2:{last})'}
+        spec = wbspec.spec(wbspec.sheet('Main', calc), wbspec.sheet('Data', data))
+        r.count('big_area_graphs')
+        run_dag(ctx, spec, [(0, a) for a in ('A1', 'A2', 'A3', 'A4', 'A5', 'A6', 'B1')], (ctx.shard_index, 950 + rep))
+    r.sample({'big_areas': 'a data sheet of 1000-1020 cells (50x20, 200x5, 1001x1, 34x30) read through SUM, COUNT, MAX, VLOOKUP, SUMIF, INDEX from another sheet'})
+
+
 def plan(tier, seed):
     n, parts = (200, 10) if tier == 'quick' else (3000, 30)
     shards = [{'kind': 'dag', 'n': n // parts, 'max': 8 if tier == 'quick' else 14} for _ in range(parts)]
@@ -533,6 +554,7 @@ def plan(tier, seed):
         shards.append({'kind': 'cyc', 'rep': rep})
     shards.append({'kind': 'shared'})
     shards.append({'kind': 'deepchain'})
+    shards.append({'kind': 'bigarea'})
     return shards
 
 
@@ -550,6 +572,8 @@ def run_shard(shard, ctx):
         return run_shared(ctx)
     if shard['kind'] == 'deepchain':
         return run_deepchain(ctx)
+    if shard['kind'] == 'bigarea':
+        return run_bigarea(ctx)
     if shard['kind'] == 'dag':
         for i in range(shard['n']):
             spec, formulas = make_graph(rng, shard['max'])
